@@ -16,7 +16,7 @@ package hash
 //@   requires each(initialData, d, hashable(d))
 //@   modifies nothing
 //@   allocates
-//@   ensures result != nil && result.h != nil
+//@   ensures result != nil && result.h != nil && fresh(result)
 
 //@ func (*Hash).WriteAny
 //@   nopanic[C05]
@@ -102,8 +102,15 @@ package hash
 //@   modifies hstate(hash)
 //@   summary result == nil ==> hstate(hash) == fold(data, old(hstate(hash)), acc, x, hw(acc, habs(x)))
 //@   summary (result != nil && len(data) == 1) ==> hstate(hash) == old(hstate(hash))
+// items whose encoders cannot fail (declared per type by axioms next to the types: curve points and scalars, ...)
+//@   summary each(data, d, wnofail(d)) ==> result == nil
+//@ spec fn wnofail(Iface) Bool
 //@ func (*Hash).Sum
 //@   summary bval(result) == hsum(hstate(hash))
+// the digest reader is a deterministic byte stream determined by the transcript (its ghost state advances on reads)
+//@ spec fn hdig(Int) Int
+//@ func (*Hash).Digest
+//@   summary hstate(result) == hdig(hstate(hash)) && fresh(result)
 //@ func (*Hash).Clone
 //@   summary hstate(result) == hstate(hash)
 //@ func (*Hash).Fork
